@@ -21,6 +21,7 @@ def strings(sigma, n, lo=0):
 
 
 INPUT_SETS = {}
+POST = {}       # name -> extra per-case oracle(job, text, pos, full, model result, impl outcome) -> reason | None
 
 
 def input_set(name):
@@ -132,12 +133,13 @@ def _run_cases(job, specs, descs, mods, res, bump, mode, spans, bytes_mode, tag)
     positions = job.get('positions', 'zero')
     fulls = job.get('fullparse', (True,))
     limit = job.get('time_limit', 0.3)
+    post = POST.get(job.get('post'))
     counters = Counters()
     mdl = Model(specs, counters=counters, deviations=job.get('deviations', ()))
     outcomes = set()
     abandoned = False
     first_sample = None
-    nviol_detail = 0
+    sigs_seen = set()
     for text in inputs:
         if abandoned:
             break
@@ -174,6 +176,10 @@ def _run_cases(job, specs, descs, mods, res, bump, mode, spans, bytes_mode, tag)
                     if nontrivial:
                         bump('nontrivial')
                     ok, exp, got, why = compare(mode, r, out, text, pos, full, spans)
+                    if ok and post is not None:
+                        why = post(job, text, pos, full, r, out)
+                        if why:
+                            ok = False
                     outcomes.add(got[0] if got else None)
                     if first_sample is None:
                         first_sample = {'grammar': descs, 'entry': list(ent), 'text': text,
@@ -185,8 +191,8 @@ def _run_cases(job, specs, descs, mods, res, bump, mode, spans, bytes_mode, tag)
                         key = case_key(_j(case))
                         sig = ('%s %s' % (tag, why)).strip()
                         res['viol_keys'].append((key, sig))
-                        if nviol_detail < 3:
-                            nviol_detail += 1
+                        if sig not in sigs_seen and len(sigs_seen) < 6:
+                            sigs_seen.add(sig)
                             res['viol'].append({'sig': sig, 'key': key, 'case': _j(case),
                                                 'expected': exp, 'got': got,
                                                 'snippet': snippet(descs, ent, text, pos, full)})
